@@ -372,42 +372,91 @@ theorem decodeMultiSig_encode (sigs : List Bytes) :
 
 /-! ### AddSignatureByIndex -/
 
-theorem addSignatureByIndex_in_order (sigs : List Bytes) (sig : Bytes) (i : Nat)
-    (h : i ≤ sigs.length) : (addSignatureByIndex sigs sig i)[i]? = some sig := by
+theorem addSignatureByIndex_length (sigs : List Bytes) (sig : Bytes) (i : Nat) :
+    (addSignatureByIndex sigs sig i).length = max sigs.length (i + 1) := by
+  unfold addSignatureByIndex
+  by_cases hlt : i < sigs.length
+  · simp [hlt]; omega
+  · simp [hlt]; omega
+
+theorem addSignatureByIndex_self (sigs : List Bytes) (sig : Bytes) (i : Nat) :
+    (addSignatureByIndex sigs sig i)[i]? = some sig := by
   unfold addSignatureByIndex
   by_cases hlt : i < sigs.length
   · simp [hlt]
-  · have : i = sigs.length := by omega
-    subst this
-    simp
-
-theorem addSignatureByIndex_misplaced (sigs : List Bytes) (sig : Bytes) (i : Nat)
-    (h : sigs.length < i) :
-    (addSignatureByIndex sigs sig i)[i]? = none ∧ (addSignatureByIndex sigs sig i)[i - 1]? = some sig := by
-  unfold addSignatureByIndex
-  have hlt : ¬ i < sigs.length := by omega
-  simp only [hlt, if_false]
-  constructor
-  · apply List.getElem?_eq_none
-    simp; omega
-  · rw [List.getElem?_append_right (by simp; omega)]
-    have : i - 1 - (sigs ++ List.replicate (i - 1 - sigs.length) [0]).length = 0 := by simp; omega
+  · simp only [hlt, if_false]
+    rw [List.getElem?_append_right (by simp; omega)]
+    have : i - (sigs ++ List.replicate (i - sigs.length) [0]).length = 0 := by simp; omega
     rw [this]; rfl
 
-theorem addSignatureByIndexFixed_spec (sigs : List Bytes) (sig : Bytes) (i : Nat) :
-    (addSignatureByIndexFixed sigs sig i)[i]? = some sig ∧
-      ∀ j, j < sigs.length → j ≠ i → (addSignatureByIndexFixed sigs sig i)[j]? = sigs[j]? := by
-  unfold addSignatureByIndexFixed
+theorem addSignatureByIndex_other (sigs : List Bytes) (sig : Bytes) (i j : Nat)
+    (hj : j < sigs.length) (hne : j ≠ i) : (addSignatureByIndex sigs sig i)[j]? = sigs[j]? := by
+  unfold addSignatureByIndex
   by_cases hlt : i < sigs.length
   · simp only [hlt, if_true]
-    refine ⟨by simp [hlt], fun j _ hne => ?_⟩
     rw [List.getElem?_set_ne (Ne.symm hne)]
   · simp only [hlt, if_false]
-    constructor
-    · rw [List.getElem?_append_right (by simp; omega)]
-      have : i - (sigs ++ List.replicate (i - sigs.length) [0]).length = 0 := by simp; omega
-      rw [this]; rfl
-    · intro j hj _
-      rw [List.append_assoc, List.getElem?_append_left hj]
+    rw [List.append_assoc, List.getElem?_append_left hj]
+
+theorem foldl_add_spec (sigOf : Nat → Bytes) : ∀ (order : List Nat) (acc : List Bytes) (done : List Nat),
+    (∀ o ∈ done, acc[o]? = some (sigOf o)) →
+    ∀ o, (o ∈ done ∨ o ∈ order) →
+      (order.foldl (fun acc o => addSignatureByIndex acc (sigOf o) o) acc)[o]? = some (sigOf o) := by
+  intro order
+  induction order with
+  | nil =>
+    intro acc done h o ho
+    rcases ho with ho | ho
+    · exact h o ho
+    · cases ho
+  | cons x xs ih =>
+    intro acc done h o ho
+    simp only [List.foldl_cons]
+    apply ih (addSignatureByIndex acc (sigOf x) x) (x :: done)
+    · intro q hq
+      rcases List.mem_cons.mp hq with rfl | hq
+      · exact addSignatureByIndex_self _ _ _
+      · by_cases hqx : q = x
+        · subst hqx; exact addSignatureByIndex_self _ _ _
+        · have hacc := h q hq
+          have hlt : q < acc.length := by
+            rcases List.getElem?_eq_some_iff.mp hacc with ⟨hl, _⟩; exact hl
+          rw [addSignatureByIndex_other _ _ _ _ hlt hqx]; exact hacc
+    · rcases ho with ho | ho
+      · exact Or.inl (List.mem_cons_of_mem _ ho)
+      · rcases List.mem_cons.mp ho with rfl | ho
+        · exact Or.inl List.mem_cons_self
+        · exact Or.inr ho
+
+theorem foldl_add_length (sigOf : Nat → Bytes) (n : Nat) : ∀ (order : List Nat) (acc : List Bytes),
+    acc.length ≤ n → (∀ o ∈ order, o < n) →
+    (order.foldl (fun acc o => addSignatureByIndex acc (sigOf o) o) acc).length ≤ n := by
+  intro order
+  induction order with
+  | nil => intro acc h _; exact h
+  | cons x xs ih =>
+    intro acc h ho
+    simp only [List.foldl_cons]
+    apply ih
+    · rw [addSignatureByIndex_length]
+      have := ho x List.mem_cons_self
+      omega
+    · intro o hmem; exact ho o (List.mem_cons_of_mem _ hmem)
+
+/-- Whatever the order in which the `n` members sign, the assembled multi-signature has exactly
+`n` entries and entry `j` is member `j`'s signature. -/
+theorem assemble_spec (sigOf : Nat → Bytes) (order : List Nat) (n : Nat)
+    (hall : ∀ j, j < n → j ∈ order) (hrange : ∀ o ∈ order, o < n) :
+    (assemble sigOf order).length = n ∧ ∀ j, j < n → (assemble sigOf order)[j]? = some (sigOf j) := by
+  have hget : ∀ j, j < n → (assemble sigOf order)[j]? = some (sigOf j) := fun j hj =>
+    foldl_add_spec sigOf order [] [] (by intro o ho; cases ho) j (Or.inr (hall j hj))
+  refine ⟨?_, hget⟩
+  have hle : (assemble sigOf order).length ≤ n := foldl_add_length sigOf n order [] (by simp) hrange
+  cases n with
+  | zero => omega
+  | succ m =>
+    have := hget m (by omega)
+    rcases List.getElem?_eq_some_iff.mp this with ⟨hl, _⟩
+    omega
 
 end Crypto
